@@ -1,0 +1,14 @@
+//! Verification hooks (cargo feature `verif`, off by default).
+//!
+//! Add-only: re-exports the crate-private module trees as plain paths so that an external
+//! harness can call the functions they contain.  Nothing here changes behaviour.
+
+pub use crate::breaking::fol as breaking_fol;
+pub use crate::command_line::arguments;
+pub use crate::command_line::files;
+pub use crate::command_line::procedures;
+pub use crate::simplifying::fol as simplifying_fol;
+pub use crate::verifying::outline;
+pub use crate::verifying::problem;
+pub use crate::verifying::prover;
+pub use crate::verifying::task;
